@@ -24,6 +24,10 @@ IntCatalogue(ty) ==
     Sp(ty, FALSE, A("const", TMinOf(ty)), "", NoAtom, "tmin"),       \* T::MIN
     Sp(ty, FALSE, A("const", TMaxOf(ty)), "", NoAtom, "tmax"),       \* T::MAX
     Sp(ty, FALSE, A("call", 5), "", NoAtom, "call"),                 \* five()
+    Sp(ty, FALSE, A("const", 5), "", NoAtom, "const_named_max"),     \* a user constant that happens to be called MAX
+    Sp(ty, FALSE, A("const", 3), "", NoAtom, "const_named_min"),     \* ... or MIN
+    Sp(ty, FALSE, A("const", 7), "", NoAtom, "path_max"),            \* limits::MAX
+    Sp(ty, TRUE,  A("const", 7), "", NoAtom, "neg_path_max"),        \* -limits::MAX
     Sp(ty, FALSE, A("lit", 1), "<<", A("lit", 3), "lit_shl"),        \* 1 << 3
     Sp(ty, FALSE, A("lit", 10), "*", A("const", 5), "lit_mul"),      \* 10 * K
     Sp(ty, FALSE, A("lit", 200), "-", A("lit", 100), "lit_minus"),   \* 200 - 100  (200 does not fit i8)
@@ -44,6 +48,8 @@ FloatCatalogue ==
     Sp("f64", FALSE, A("const", 5), "+", A("fltlit", 1), "const_plus"),
     Sp("f64", FALSE, A("const", 5), "-", A("fltlit", 1), "const_minus"),
     Sp("f64", FALSE, A("call", 5), "", NoAtom, "call"),
+    Sp("f64", FALSE, A("const", 5), "", NoAtom, "const_named_max"),
+    Sp("f64", FALSE, A("const", 7), "", NoAtom, "path_max"),
     Sp("f64", FALSE, A("fltlit", 7), "-", A("fltlit", 2), "lit_minus_small") }
 
 Catalogue == IntCatalogue("i8") \cup IntCatalogue("i32") \cup FloatCatalogue
